@@ -5,7 +5,7 @@
    (Spec.mate_in / mated_in) on searches of the real engine. *)
 From Coq Require Import Permutation.
 From Walleye Require Import Model.Search Spec.Minimax Spec.Abs Proofs.MateText Proofs.DrawTableProofs Proofs.TableRestored Proofs.RootProofs
-  Proofs.CheckProofs Proofs.GenerateAbs Proofs.LegalMoves Proofs.PVSRoot Proofs.MateInOne Proofs.PositionGo Proofs.ClockSim Proofs.AlwaysAnswered Proofs.TightRange Proofs.OhBound Proofs.MateHeld.
+  Proofs.CheckProofs Proofs.GenerateAbs Proofs.LegalMoves Proofs.PVSRoot Proofs.MateInOne Proofs.PositionGo Proofs.ClockSim Proofs.AlwaysAnswered Proofs.TightRange Proofs.OhBound Proofs.MateHeld Proofs.OhPosition.
 From Walleye Require Import Model.Uci Gen.Handover.
 Open Scope Z_scope.
 
@@ -126,6 +126,13 @@ Proof. exact generated_oh_below_mark. Qed.
 Theorem C11_source_drains_the_channel_after_the_join : HANDOVER_DRAINS_AFTER_JOIN = true.
 Proof. reflexivity. Qed.
 
+(* ... and the board a `position` command leaves behind carries the ordering value 0 (the loader writes 0, the text-move
+   applier never touches the field): the hypothesis `order_heuristic b < POS_INF` above holds for every `position ...`, `go` *)
+Theorem C11_position_command_leaves_ordering_value_zero : forall zt cmds b t,
+  play_out_position zt cmds = Ok (b, t) -> order_heuristic b = 0.
+Proof. exact position_command_leaves_ordering_value_zero. Qed.
+
+Print Assumptions C11_position_command_leaves_ordering_value_zero.
 Print Assumptions C11_mate_in_one_is_played_whatever_the_deadline.
 Print Assumptions C11_source_drains_the_channel_after_the_join.
 Print Assumptions C11_generated_moves_rank_below_the_pv_mark.
